@@ -70,6 +70,24 @@ def main(tier):
             if bool(a) == bool(b):
                 chk.add_failure(d, {"what": "negate(p)(x) == p(x)", "value": repr(x), "p(x)": bool(a)}, None)
                 break
+    # ---- the emptiness duals on one-shot iterables (a fresh iterator for each call): items that are None / falsy
+    from predicate.predicate import IsEmptyPredicate, IsNotEmptyPredicate
+
+    it_cases = 0
+    for P_ in (IsEmptyPredicate, IsNotEmptyPredicate):
+        p_ = P_()
+        q_ = negate(p_)
+        for xs in ([None], [None, 1], [0], [False, None], [], [""], [[]], [1]):
+            for mk in (iter, lambda v: (e for e in v), lambda v: map(lambda e: e, v)):
+                it_cases += 1
+                try:
+                    a, b = bool(p_(mk(list(xs)))), bool(q_(mk(list(xs))))
+                except Exception:  # noqa: BLE001
+                    continue
+                if a == b:
+                    chk.add_failure(f"{P_.__name__} on a one-shot iterable over {xs!r}", {"what": "negate(p)(x) == p(x) on a lazy iterable", "p(x)": a}, None)
+    chk.evaluations += it_cases
+    chk.extra["one_shot_iterable_cases"] = it_cases
     # ---- caller-owned parameters: a predicate built from a set the caller keeps (and later changes) and its negation
     # must stay complements of each other -- set-valued predicates copy their argument, so neither may alias it
     from predicate.set_predicates import (InPredicate, IsRealSubsetPredicate, IsRealSupersetPredicate, IsSubsetPredicate, IsSupersetPredicate,
